@@ -211,6 +211,13 @@ class ChunkIO(RuleBasedStateMachine):
                 {"channels": C, "size": [shape[3], shape[2], shape[1]],
                  "block": sc["compressed_segmentation_block_size"]},
                 dt.newbyteorder("<"), rng).astype(dt)
+        if sc["encoding"] == "compressed_segmentation" and seed % 3 == 2:
+            # regular structure: blocks (also border blocks of different
+            # shapes) with byte-identical voxel sequences
+            self.flags.add("regular_label_structure")
+            return ds.regular_labels(
+                shape, dt, rng, None,
+                block=sc["compressed_segmentation_block_size"])
         if sc["encoding"] == "compressed_segmentation" and seed % 2:
             pal = rng.integers(0, hi, size=3, dtype=np.uint64, endpoint=True)
             return pal[rng.integers(0, 3, size=shape)].astype(dt)
